@@ -1,5 +1,6 @@
 import Mimium.Model.Migration
 import Mimium.Props.C08
+import Mimium.Props.C05
 /-!
 # C07 — hot swap after an edit preserves the state of untouched signal paths
 
@@ -14,8 +15,17 @@ Decided by correspondence: real edit histories (insert / delete / replace / nest
 a compile error) on both runtimes; every channel observing an untouched voice must continue as predicted by the
 reference semantics of that voice alone, new voices start from zero.  When an untouched voice is NOT carried, the
 Lean model of the pinned diff (`carriesChild`) says whether this is finding F5 (model predicts the loss) or a new violation.
-PARTIAL: the link from "state words carried" to "voice output continues" (flat words = serialised per-call-site state)
-is exercised, not proved.
+* `C07_carried_words_same_state`, `C07_carried_words_same_future` (link "state words carried ⇒ voice continues", built on
+  `C05_flat_eq_tree`): the words of a carried voice, read back at the voice's NEW layout position as a state tree
+  (`FlatTree.deserialize`), give the tree they encoded at the old position — exactly the same `SNode` when the old tree was
+  canonical (every site evaluated, in layout order), hence `Core.eval` of every expression from it is the same (functional
+  determinism); and for every conforming tree (sites not yet evaluated, any cell order) a tree with the same flat
+  words, hence (a) the same outputs for every sequence of calls of the voice seen as per-site state operations
+  (`FlatTree.treeRun`) and (b) — `C05_eval_respects_agreement` — the same returned values of the reference evaluator
+  `Core.eval` on the voice's body, sample after sample, all run lengths (`FlatTree.instRun`), for every body whose stateful
+  sites are covered by the voice's labelled layout.
+PARTIAL: the runtimes themselves are corresponded, not modelled; that the voice's published layout covers its body in the
+sense of `FlatTree.Covers` is the compiler's (mirgen's) job and is a hypothesis here (judged by C05's trace checker on the real VM).
 -/
 namespace Mimium.Migration
 open Mimium.StateTree
@@ -39,6 +49,62 @@ theorem C07_carried_range_words (o n : Sk) (old : List Nat) (srcOff dstOff size 
   obtain ⟨p, hp, hc, he⟩ := wordMoved_spec (h w hw)
   rw [C08_copied_words o n old (dstOff + w) (by omega) p hp hc, he]
 
+open Mimium.FlatTree Mimium.Core in
+/-- the words of a carried voice arrive unchanged at its new position, so the state tree read back there is the
+tree read at the old position -/
+theorem C07_carried_words_same_state (o n : Sk) (old : List Nat) (srcOff dstOff : Nat) (lay : LNode)
+    (hb : dstOff + lay.size ≤ n.size)
+    (h : carriesRange (takeDiff o n) srcOff dstOff lay.size = true) :
+    wordsAt (applyPatches old (List.replicate n.size 0) (takeDiff o n)) dstOff lay.size = wordsAt old srcOff lay.size ∧
+    deserialize lay (wordsAt (applyPatches old (List.replicate n.size 0) (takeDiff o n)) dstOff lay.size) =
+      deserialize lay (wordsAt old srcOff lay.size) := by
+  have hw : wordsAt (applyPatches old (List.replicate n.size 0) (takeDiff o n)) dstOff lay.size =
+      wordsAt old srcOff lay.size := by
+    simp only [wordsAt]
+    apply List.map_congr_left
+    intro w hw
+    rw [C07_carried_range_words o n old srcOff dstOff lay.size hb h w (by simpa using hw)]
+  exact ⟨hw, by rw [hw]⟩
+
+open Mimium.FlatTree Mimium.Core in
+/-- **state words carried ⇒ the voice continues.**  Let the old storage hold, at `srcOff`, the serialisation of the
+voice's state tree `st` under the voice's labelled layout, and let the plan carry that range to `dstOff`.  Then the
+tree `st'` read back from the migrated storage at `dstOff` (1) has the same flat words as `st`, and therefore
+produces the same outputs as `st` for every sequence of calls of the voice with whatever operands (any run length);
+(2) if `st` is canonical, `st' = st`, so every evaluation from it is the evaluation from `st`;
+(3) if the `self` values of `st` have their declared shapes, the reference evaluator returns, for every body covered by
+the voice's layout, the same values from `st'` as from `st`, sample after sample (any run length, any inputs). -/
+theorem C07_carried_words_same_future (o n : Sk) (old : List Nat) (srcOff dstOff : Nat) (lay : LNode) (st : SNode)
+    (hl : lay.Ok) (hb : dstOff + lay.size ≤ n.size)
+    (h : carriesRange (takeDiff o n) srcOff dstOff lay.size = true)
+    (hold : wordsAt old srcOff lay.size = serialize lay st) (hc : Conforms lay st) :
+    let st' := deserialize lay (wordsAt (applyPatches old (List.replicate n.size 0) (takeDiff o n)) dstOff lay.size)
+    (serialize lay st' = serialize lay st ∧ Conforms lay st' ∧
+      ∀ pays : List NPay, (∀ p ∈ pays, NPayOk lay p) → treeRun lay pays st' = treeRun lay pays st) ∧
+    (Canon lay st → st' = st ∧
+      ∀ (fuel : Nat) (P : Prog) (rt : Rt) (env : Env) (e : Expr) (σ : Store),
+        eval fuel P rt env e σ st' = eval fuel P rt env e σ st) ∧
+    (ConformsS lay st → ∀ (fuel : Nat) (P : Prog) (body : Expr) (samples : List (Rt × Env × Store)),
+      Covers P lay.cells body → instRun fuel P lay.self body samples st' = instRun fuel P lay.self body samples st) := by
+  intro st'
+  have hst' : st' = deserialize lay (serialize lay st) := by
+    simp only [st', (C07_carried_words_same_state o n old srcOff dstOff lay hb h).1, hold]
+  have hlen : (serialize lay st).length = lay.sk.size := C05_serialize_size lay st hc
+  have hr := C05_serialize_deserialize lay (serialize lay st) hl hlen
+  refine ⟨⟨?_, ?_, ?_⟩, ?_, ?_⟩
+  · rw [hst']; exact hr.1
+  · rw [hst']; exact hr.2.2
+  · intro pays hp
+    rw [hst']
+    exact C05_same_words_same_behaviour lay pays _ st hl hr.2.2 hc hp hr.1
+  · intro hcan
+    have : st' = st := by rw [hst']; exact C05_deserialize_serialize lay st hl hcan
+    exact ⟨this, fun fuel P rt env e σ => by rw [this]⟩
+  · intro hcs fuel P body samples hcov
+    rw [hst']
+    exact C05_same_words_same_eval_future fuel P lay body samples _ st hl hcov
+      (canon_conformsS lay _ hl hr.2.1) hcs hr.1
+
 /-- words that no patch covers are zero after the VM's migration: new sites start from zero -/
 theorem C07_new_cells_start_from_zero (o n : Sk) (old : List Nat) (k : Nat) (hk : k < n.size)
     (h : ∀ p ∈ takeDiff o n, ¬ p.covers k) :
@@ -61,5 +127,32 @@ example :
     let new := Sk.fn [.fn [.mem 1], .fn [.feed 1], .fn [.mem 1, .delay 4]]
     carriesChild old new 0 1 = true ∧ carriesChild old new 1 2 = true ∧ carriesChild old new 0 0 = false := by
   decide +kernel
+
+/-! non-vacuity of `C07_carried_words_same_future`: the second voice (a mem and a stateful child with `self`) of the
+example above is carried from offset 1 to offset 2; its canonical tree holds 5, 6, 7 -/
+open Mimium.FlatTree Mimium.Core in
+example :
+    let oldSk := Sk.fn [.fn [.feed 1], .fn [.mem 1, .fn [.feed 1, .mem 1]]]
+    let newSk := Sk.fn [.fn [.mem 1], .fn [.feed 1], .fn [.mem 1, .fn [.feed 1, .mem 1]]]
+    let lay : LNode := ⟨none, [.mem 0, .child 1 (some .num) [.mem 0]]⟩
+    let st : SNode := .mk none [(0, .mem 5), (1, .child (.mk (some (.num 6)) [(0, .mem 7)]))]
+    let old : List Nat := [9, 5, 6, 7]
+    lay.sk.matches (.fn [.mem 1, .fn [.feed 1, .mem 1]]) = true ∧ lay.size = 3 ∧ 2 + lay.size ≤ newSk.size ∧
+    carriesRange (takeDiff oldSk newSk) 1 2 lay.size = true ∧
+    wordsAt old 1 lay.size = serialize lay st ∧
+    wordsAt (applyPatches old (List.replicate newSk.size 0) (takeDiff oldSk newSk)) 2 lay.size = [5, 6, 7] := by
+  decide +kernel
+
+open Mimium.FlatTree Mimium.Core in
+example :
+    let lay : LNode := ⟨none, [.mem 0, .child 1 (some .num) [.mem 0]]⟩
+    let st : SNode := .mk none [(0, .mem 5), (1, .child (.mk (some (.num 6)) [(0, .mem 7)]))]
+    lay.Ok ∧ Canon lay st ∧ Conforms lay st ∧ ConformsS lay st := by
+  have hl : LNode.Ok ⟨none, [.mem 0, .child 1 (some .num) [.mem 0]]⟩ := by
+    simp [LNode.Ok, LayOkL, LayOk, sitesOf, LCell.site]
+  have hc : Canon ⟨none, [.mem 0, .child 1 (some .num) [.mem 0]]⟩
+      (.mk none [(0, .mem 5), (1, .child (.mk (some (.num 6)) [(0, .mem 7)]))]) := by
+    simp [Canon, CanonSelf, CanonCells, CanonCell, SNode.selfv, SNode.cells, HasShape]
+  exact ⟨hl, hc, canon_conforms _ _ hl hc, canon_conformsS _ _ hl hc⟩
 
 end Mimium.Migration
